@@ -235,6 +235,39 @@ func (s *sut) enumerate() bool {
 		s.c.Failf("all-sequence", "All(): %s (members %d, buckets %d)", d, len(want), len(s.m.perHi))
 		return false
 	}
+	// two iterators alive at the same time on the same bitmap, advanced in a seeded
+	// interleaving: each must still deliver every member
+	if len(want) > 0 && s.c.Rng.Chance(1, 3) {
+		var g1, g2 []uint32
+		if !s.c.Guard("Iter(two live iterators)", func() {
+			i1, i2 := s.r.Iter(), s.r.Iter()
+			d1, d2 := false, false
+			for steps := 0; (!d1 || !d2) && steps < 2*limit+8; steps++ {
+				if !d1 && (d2 || s.c.Rng.Bool()) {
+					if i1.Next() {
+						g1 = append(g1, i1.Value())
+					} else {
+						d1 = true
+					}
+				} else if !d2 {
+					if i2.Next() {
+						g2 = append(g2, i2.Value())
+					} else {
+						d2 = true
+					}
+				}
+			}
+		}) {
+			return false
+		}
+		for k, g := range [][]uint32{g1, g2} {
+			if d := firstDiff(g, want); d != "" {
+				s.c.Failf("iter-two-live", "two iterators advanced alternately on one bitmap, iterator %d: %s (members %d)", k+1, d, len(want))
+				return false
+			}
+		}
+		s.c.Add("two_live_iterators", 1)
+	}
 	if s.kept != nil {
 		for pass := 0; pass < 2; pass++ {
 			got = got[:0]
@@ -615,6 +648,7 @@ func main() {
 	r.Require("bucket_became_empty", 100)
 	r.Require("quiet_windows_closed", 500)
 	r.Require("kept_sequences_rerun", 1000)
+	r.Require("two_live_iterators", 1000)
 	r.Require("dense_cases", 100)
 	r.Finish()
 }
